@@ -7,6 +7,7 @@ import (
 	"sort"
 	"strings"
 
+	"github.com/JunNishimura/Goit/internal/fsutil"
 	"github.com/JunNishimura/Goit/internal/sha"
 	"github.com/fatih/color"
 )
@@ -45,13 +46,9 @@ func (b *branch) loadHash(rootGoitPath string) error {
 
 func (b *branch) write(rootGoitPath string) error {
 	branchPath := filepath.Join(rootGoitPath, "refs", "heads", b.Name)
-	f, err := os.Create(branchPath)
-	if err != nil {
-		return fmt.Errorf("fail to create %s: %w", branchPath, err)
-	}
-	defer f.Close()
-
-	if _, err := f.WriteString(b.hash.String()); err != nil {
+	// the temporary file lives outside refs/heads, where every file is taken for a branch
+	tmpPath := filepath.Join(rootGoitPath, "tmp-branch")
+	if err := fsutil.WriteFileAtomic(branchPath, tmpPath, []byte(b.hash.String())); err != nil {
 		return fmt.Errorf("fail to write hash(%s): %w", b.hash, err)
 	}
 
